@@ -355,6 +355,16 @@ def scenarios(prop, count, seed):
     while len(out) < count:
         out.append(random_admissible(rng, 0, prof))
     out = out[:count]
+    stall_p = {"C08": 0.25, "C04": 0.15, "C03": 0.1, "C02": 0.1, "C09": 0.1}.get(prop, 0.04)
     for i, sc in enumerate(out):
         sc["sid"] = i + 1
+        # predicate samples only where they are the subject (a mismatch there would
+        # hide what comes later in the same trace)
+        sc["snap"] = prop == "C14"
+        hrn = sc["harness"]
+        n = sc["cfg"]["n"]
+        hrn["prep"] = rng.choice([0, 0, 0, 1, 2])
+        if rng.random() < stall_p:
+            hrn["stall"] = [rng.choice([0, 0, 1, 2, 3]) if sc["cfg"]["kind"][j] == "job" else 0
+                            for j in range(n)]
     return out
